@@ -9,9 +9,14 @@ import (
 	"fmt"
 	"os"
 
+	"bytes"
 	"github.com/mimiro-io/datahub/internal/server"
 	ds "github.com/mimiro-io/datahub/internal/service/dataset"
 	"github.com/mimiro-io/datahub/internal/service/types"
+	"github.com/mimiro-io/datahub/internal/web"
+	"net/http/httptest"
+	"net/url"
+	"strconv"
 )
 
 // changes_rev: the reverse change reader exactly as web.getChangesHandler drives it
@@ -57,8 +62,136 @@ func changesRev(store *server.Store, dsm *server.DsManager, op server.VerifOp, t
 	return
 }
 
+// ---- the same features through the real HTTP handlers (internal/web/datasethandler.go)
+
+func httpDo(store *server.Store, dsm *server.DsManager, method, path string, body []byte) (int, []byte) {
+	e := web.VerifStoreEcho(store, dsm)
+	req := httptest.NewRequest(method, path, bytes.NewReader(body))
+	req.Header.Set("Content-Type", "application/json")
+	rec := httptest.NewRecorder()
+	e.ServeHTTP(rec, req)
+	return rec.Code, rec.Body.Bytes()
+}
+
+// POST /datasets/<ds>/entities : the handler cuts the stream into StoreEntities batches of 10
+func hBatch(store *server.Store, dsm *server.DsManager, op server.VerifOp, tokens map[string]int64) (oo server.VerifOpObs) {
+	oo.Lens = server.VerifLens(store, op.Ents)
+	code, body := httpDo(store, dsm, "POST", "/datasets/"+op.Ds+"/entities", server.VerifPayload(op.Ents))
+	if code != 200 {
+		oo.Err = fmt.Sprintf("status %d: %s", code, string(body))
+	}
+	return
+}
+
+func parseStream(body []byte) (ents []server.VerifEnt, token string, ok bool) {
+	var arr []map[string]interface{}
+	if err := json.Unmarshal(body, &arr); err != nil {
+		return nil, "", false
+	}
+	ents = []server.VerifEnt{}
+	for i, m := range arr {
+		id, _ := m["id"].(string)
+		if i == 0 && id == "@context" {
+			continue
+		}
+		if id == "@continuation" {
+			token, _ = m["token"].(string)
+			continue
+		}
+		ents = append(ents, server.VerifEntFromMap(m))
+	}
+	return ents, token, true
+}
+
+// GET /datasets/<ds>/changes?since=&limit=&latestOnly=&reverse=
+func hChanges(store *server.Store, dsm *server.DsManager, op server.VerifOp, tokens map[string]int64) (oo server.VerifOpObs) {
+	key := op.Reader + "@h@" + op.Ds
+	if op.Reverse {
+		key = op.Reader + "@hrev@" + op.Ds
+	}
+	since := op.Since
+	if op.Reader != "" {
+		since = tokens[key]
+	}
+	q := url.Values{}
+	if since > 0 {
+		q.Set("since", web.VerifEncodeSince(since))
+	}
+	if op.Limit != 0 {
+		q.Set("limit", strconv.Itoa(op.Limit))
+	}
+	if op.Latest {
+		q.Set("latestOnly", "true")
+	}
+	if op.Reverse {
+		q.Set("reverse", "true")
+	}
+	code, body := httpDo(store, dsm, "GET", "/datasets/"+op.Ds+"/changes?"+q.Encode(), nil)
+	if code != 200 {
+		oo.Err = fmt.Sprintf("status %d", code)
+		return
+	}
+	ents, tok, ok := parseStream(body)
+	if !ok {
+		oo.Err = "unparsable response"
+		return
+	}
+	oo.Ents = ents
+	if tok == "" {
+		oo.Next = 0 // the reverse reader omits the continuation when it reached position 0
+	} else {
+		oo.Next = web.VerifDecodeSince(tok)
+	}
+	if op.Reader != "" {
+		tokens[key] = oo.Next
+	}
+	return
+}
+
+// GET /datasets/<ds>/entities?from=&limit= , following the continuation tokens
+func hEntities(store *server.Store, dsm *server.DsManager, op server.VerifOp, tokens map[string]int64) (oo server.VerifOpObs) {
+	oo.Pages = [][]server.VerifEnt{}
+	from := ""
+	for p := 0; p < 10000; p++ {
+		lim := 0
+		if len(op.Limits) > 0 {
+			if p < len(op.Limits) {
+				lim = op.Limits[p]
+			} else {
+				lim = op.Limits[len(op.Limits)-1]
+			}
+		}
+		q := url.Values{}
+		if from != "" {
+			q.Set("from", from)
+		}
+		if lim != 0 {
+			q.Set("limit", strconv.Itoa(lim))
+		}
+		code, body := httpDo(store, dsm, "GET", "/datasets/"+op.Ds+"/entities?"+q.Encode(), nil)
+		if code != 200 {
+			oo.Err = fmt.Sprintf("status %d", code)
+			return
+		}
+		ents, tok, ok := parseStream(body)
+		if !ok {
+			oo.Err = "unparsable response"
+			return
+		}
+		oo.Pages = append(oo.Pages, ents)
+		if len(ents) == 0 || lim <= 0 {
+			break
+		}
+		from = tok
+	}
+	return
+}
+
 func init() {
 	server.VerifExtOps["changes_rev"] = changesRev
+	server.VerifExtOps["hbatch"] = hBatch
+	server.VerifExtOps["hchanges"] = hChanges
+	server.VerifExtOps["hentities"] = hEntities
 }
 
 func main() {
